@@ -43,6 +43,7 @@ var c01Kinds = []string{
 	"remove", "truncate-keep-proof", "truncate-attacker-proof", "rekey", "proof-attacker-secret", "proof-donor",
 	"proof-attacker-seal", "proof-none", "seal-by-holder", "unseal-random-secret", "holder-append", "attacker-chain",
 	"algorithm", "size", "root-key-id", "raw-flip", "raw-truncate", "proof-both", "strip-last-with-own-secret",
+	"proof-secret-64-with-public-key", "proof-secret-other-length", "truncate-proof-64-with-public-key",
 }
 
 func pickField(sb *wire.SignedBlock, f string) *[]byte {
@@ -172,6 +173,25 @@ func applyMutation(c C01Case, tgtBytes []byte, tgt, donor *wire.Biscuit) (*wire.
 		env.Proof = wire.Proof{HasFinal: true, Final: sealSignature(apriv, all[len(all)-1])}
 	case "proof-none":
 		env.Proof = wire.Proof{}
+	case "proof-secret-64-with-public-key", "truncate-proof-64-with-public-key":
+		// a 64-byte "secret" whose second half is the last announced public key (the layout of an
+		// expanded ed25519 private key) made by someone who knows no private key at all
+		if mu.Kind == "truncate-proof-64-with-public-key" {
+			env.Blocks = env.Blocks[:i]
+		}
+		all := env.All()
+		fake := append(append([]byte{}, aseed...), all[len(all)-1].NextKey...)
+		env.Proof = wire.Proof{HasSecret: true, Secret: fake}
+	case "proof-secret-other-length":
+		// the genuine secret padded or cut to another length
+		if env.Proof.HasSecret {
+			l := []int{0, 1, 31, 33, 64}[mu.Bit%5]
+			s := make([]byte, l)
+			copy(s, env.Proof.Secret)
+			env.Proof.Secret = s
+		} else {
+			env.Proof = wire.Proof{HasSecret: true, Secret: append(append([]byte{}, aseed...), aseed...)}
+		}
 	case "proof-both":
 		// both oneof members on the wire: the last one (final signature) wins
 		env.Proof.HasFinal = true
